@@ -2,7 +2,7 @@
    Same model, reference lexer and hypothesis [lexer_agrees] (= C07) as Properties/C01.v. *)
 From PV Require Import Base.Prelude Spec.LuaLex Instances.HoldsC02 Instances.HoldsC01
   Generated.T_lexer Model.NameFactory Model.Lexer Model.TokWriters
-  Proofs.LuaLexFacts Proofs.TokWritersProofs Proofs.MinifyRelex Proofs.MinifyRelations.
+  Proofs.LuaLexFacts Proofs.TokWritersProofs Proofs.MinifyRelex Proofs.MinifyRelations Proofs.MinifyEndToEnd.
 
 (* the first two comments that precede any code ([leading_comments]) are written verbatim, each
    followed by a line break, at the very top of the text ([header_text] is a prefix); under the
@@ -36,6 +36,13 @@ Theorem C19_total : forall cfg src ss ts, spec_toks src = Some ss -> lexer_agree
   exists chunks, minify cfg ts = Ok chunks /\ holds_C01 src (concat chunks) = true /\ holds_C19 src (concat chunks) = true.
 Proof. exact luamin_total. Qed.
 Print Assumptions C19_total.
+
+(* composed with C07 (lex_agrees_code of the lexer worker): from the source bytes through lexer model
+   and writer model, no hypothesis about the lexer *)
+Theorem C19_end_to_end : forall cfg src ss, Forall byte src -> spec_toks src = Some ss ->
+  exists out, luamin_text cfg [src] = Ok out /\ holds_C01 src out = true /\ holds_C19 src out = true.
+Proof. exact luamin_end_to_end. Qed.
+Print Assumptions C19_end_to_end.
 
 (* what the title / byline rule of `stats` reads from a text that starts with the header *)
 Theorem C19_titles : forall hc out rest, after_header hc out = Some rest ->
